@@ -66,10 +66,18 @@ def main():
         vjobs = [(l, f) for (l, f, k) in jobs if k == "verus"]
         kjobs = [(l, f) for (l, f, k) in jobs if k == "kani"]
         results = []
+        # Verus units (CPU-light, 2 GB) run in parallel with the Kani groups; Kani groups run one after another
+        # (each is internally parallel and sized to the memory budget).
+        import threading
+        vres = []
+        vt = None
         if vjobs:
-            results += run_parallel(vjobs, min(len(vjobs), max(2, ncpu // 4)))
-        if kjobs:
-            results += run_parallel(kjobs, 1)
+            vt = threading.Thread(target=lambda: vres.extend(run_parallel(vjobs, min(len(vjobs), max(2, ncpu // 4)))))
+            vt.start()
+        kres = run_parallel(kjobs, 1) if kjobs else []
+        if vt:
+            vt.join()
+        results = vres + kres
         rc = finish(prop, tier, seed, results, t0, P["level_text"], P.get("assumptions", []),
                     P.get("trusted_base", props.TRUSTED_BASE), category=P.get("category", "proof"))
     finally:
